@@ -34,6 +34,10 @@ CLAIMED = {
          "Exploration: for every word of generated system/user dictionaries (current and legacy formats, boundary-length strings, references, elided forms) and ALL 2^10 subsets each requested field read through its accessor equals the full-load value; analyses under set_subset(S) keep the partition for every S and, when S covers what path-rewrite plugins read (or none is configured), the same tokens and requested field values as the full-field analysis, for the three orders of set_mode/set_subset. No absence claim.",
          "Subsets are closed by InfoSubset::normalize() as the tokenizer does. Legacy formats are produced by rewriting the version word of freshly compiled dictionaries.",
          "DESIGN.md section 4, C11"),
+ "C12": ("property-based testing (proptest): generated stacks of 0-15 user dictionaries with overlapping / plugin-registered parts of speech, checked against the generating model and against the same system dictionary loaded alone",
+         "Exploration: every row of every layered dictionary must report the POS strings of its CSV row and split references resolved to the model's rows of the same user dictionary or the system one; every morpheme's dictionary id / word number must name a row whose key is its surface; OOV morphemes report -1 and a configured POS; every declared POS is retrievable; all observations on system words are identical with and without user dictionaries; a 15th user dictionary must be refused with an error. No absence claim.",
+         "User dictionaries are compiled against the bare system dictionary, the only way callers do it. No input-text plugin is configured so that key == surface.",
+         "DESIGN.md section 4, C12"),
  "C20": ("property-based testing (proptest): boundary-value generation of every plugin parameter against an explicit in-range predicate (load succeeds iff predicate); matrix differential and assertion-monitored analysis for accepted configurations",
          "Exploration: matrices n x m with provider ids / costs / inhibited pairs / unk.def lines drawn around {-32769, -32768, -1, 0, n-1, n, n+1, 32767, 32768, 65535, 65536} and POS present/absent x userPOS allow/forbid/missing; loading must return Ok exactly when the predicate holds and never panic; accepted configurations must leave every non-inhibited matrix cell untouched and analyse texts without tripping the matrix index assertions. No absence claim.",
          "Known finding F6a (Simple/Regex id equal to the matrix size accepted) is excluded by predicate and pinned. Left ids are compared with the second matrix dimension, right ids with the first (what the lattice indexes).",
